@@ -1115,7 +1115,9 @@ func compileGenericForStmt(context *funcContext, stmt *ast.GenericForStmt) { // 
 	context.RegisterLocalVar("(for state)")
 	context.RegisterLocalVar("(for control)")
 
-	compileRegAssignment(context, stmt.Names, stmt.Exprs, context.RegTop()-3, 3, sline(stmt))
+	// the explist initialises the three hidden variables, whatever the number of loop variables
+	hidden := []string{"(for generator)", "(for state)", "(for control)"}
+	compileRegAssignment(context, hidden, stmt.Exprs, context.RegTop()-3, 3, sline(stmt))
 
 	code.AddASbx(OP_JMP, 0, fllabel, sline(stmt))
 
